@@ -1147,7 +1147,7 @@ func (fx *FnCtx) enterLoop(li *loopInfo, st *State, preds []*ssa.BasicBlock) *St
 				if fx.modSet[c] || strings.HasPrefix(c, "P$local:") || c == "*" {
 					continue
 				}
-				if sc, ok := fx.compSort[c]; ok && strings.HasPrefix(sc, "(Array Int ") {
+				if sc := fx.sortOfComp(c); strings.HasPrefix(sc, "(Array Int ") {
 					li.frameComps = append(li.frameComps, c)
 					fx.obligNamed(fmt.Sprintf("%s#inv.init@loop%d.frame.%s", fx.key, li.ord, sanitize(c)), fx.frameInv(st, c), "cells of "+c+" that existed at entry are unchanged (automatic frame invariant)", nil, "")
 				}
@@ -1248,6 +1248,27 @@ func (fx *FnCtx) enterLoop(li *loopInfo, st *State, preds []*ssa.BasicBlock) *St
 	}
 	// string range iterator bound: pos <= len
 	return hs.clone()
+}
+
+// sortOfComp: the SMT sort of a heap component, also when this function has not touched it yet (a callee writes it)
+func (fx *FnCtx) sortOfComp(c string) string {
+	if s := fx.compSort[c]; s != "" {
+		return s
+	}
+	if t, ok := compTypes[c]; ok {
+		var s string
+		switch {
+		case strings.HasPrefix(c, "E$"):
+			s = elemSort(fx.P, t)
+		case strings.HasPrefix(c, "F$"), strings.HasPrefix(c, "P$"):
+			s = fmt.Sprintf("(Array Int %s)", fx.P.sorts.sortOf(t))
+		}
+		if s != "" {
+			fx.compSort[c] = s
+		}
+		return s
+	}
+	return ""
 }
 
 // frameInv: every cell of component c that existed at function entry has its entry value in state st
